@@ -10,6 +10,7 @@ BASE = 0x200000000000
 BCS = [1, 2, 3, 31, 32, 127]
 CFS = [0, 1, 16]
 ALIGNS = [1, 2, 4, 8, 16, 32, 64, 128, 256, 512, 1024]
+ODD_ALIGNS = [3, 5, 6, 7, 9, 10, 11, 12, 13, 14, 15, 24, 48, 96, 1000]     # legal (CheckBlockAlignment) but not powers of two
 
 
 def lowbit(a): return a & (-a)
@@ -70,6 +71,12 @@ def layout_cases(ctx, scale):
             rs = set([0, g, al - g if al > g else 0, al, al + g, 2 * al - g] + [r.below(2 * al) // g * g for _ in range(3 * scale)])
             for res in sorted(rs):
                 cs.append('nb1 1 %d %d %d %d' % (r.choice(CFS), bs, al, ceil_(BASE + 65536, 2 * al * 16) + res))
+    for al in ALIGNS + ODD_ALIGNS + [17, 18, 20, 33, 100, 768, 1023]:      # Allocate/Deallocate dispatch of single-block pools
+        import math
+        P = 2 * al // math.gcd(2 * al, 16) * 16
+        for bs in (1, 8, al, 40):
+            for res in sorted(set([0, 16, 32, P - 16] + [16 * r.below(P // 16) for _ in range(2 * scale)])):
+                cs.append('al1 1 %d %d %d %d' % (r.choice(CFS), bs, al, ceil_(BASE + 65536, P) + res))
     for bc in BCS[1:]:
         for al in ALIGNS + ([3, 6, 24, 1000] if scale > 1 else [3, 24]):
             g = gran(al)
@@ -109,9 +116,13 @@ def fab_cases(ctx, scale):
 
 def gen_hist(r, bc, cf, bs, al, style):
     B = correct(bs, al, bc); g = gran(al)
-    period = 2 * B * bc if bc > 1 else 2 * al
-    res = [r.choice([0, g, al, 2 * al - g, B - g, B, B + al, B * bc - g, B * bc, B * bc + al, r.below(period)]) % period // g * g
-           for _ in range(r.range(1, 5))]
+    p0 = 2 * B * bc if bc > 1 else 2 * al
+    import math
+    period = p0 // math.gcd(p0, 16) * 16
+    endmode = r.below(4) + (4 if r.chance(1, 4) else 0)      # bit 2: only min(16, lowbit(al)) granularity instead of 16
+    gg = g if endmode & 4 else 16
+    res = [r.choice([0, gg, 16, 32, al, 2 * al - g, B - g, B, B + al, B * bc - g, B * bc, B * bc + al, 16 * r.below(max(1, period // 16)), r.below(period)]) % period // gg * gg
+           for _ in range(r.range(1, 6))]
     ops = []
     live = [0, 0]          # approximate (exact unless DeallocateIf was used); the harness reduces k modulo the live count
     LAST = 10 ** 9         # k >= 10^9 means "the most recently allocated live block"
@@ -144,6 +155,12 @@ def gen_hist(r, bc, cf, bs, al, style):
                 m = r.range(1, 4); ops.append('i%d:%d:%d' % (p, m, r.below(m))); live[p] -= live[p] // m
             elif t < 96 and bc > 1: ops.append('x%d' % p); live[p] = 0
             elif t >= 96: M(p, 1 - p)
+    elif style == 3:    # blocks left in the cache, DeallocateAll, allocate again (a stale cache head must not be handed out)
+        A(0, r.range(1, bc + 3)); A(1, r.range(0, 3))
+        F(0, r.range(1, max(1, min(live[0], cf if cf else 2))), how=r.below(3))
+        ops.append('x0'); live[0] = 0
+        A(0, r.range(1, bc + 2)); F(0, r.range(0, live[0])); A(0, r.range(0, 3))
+        if r.chance(1, 2): ops.append('x0'); live[0] = 0; A(0, 2)
     else:               # fill k buffers (+-1 block), free all but a few blocks, merge, refill
         A(0, r.range(1, 3) * bc + r.choice([-1, 0, 1])); A(1, r.range(1, 3) * bc + r.choice([-1, 0, 1]))
         F(0, r.range(0, live[0] - 1), how=2); F(1, r.range(0, live[1] - 1), how=2)
@@ -152,7 +169,7 @@ def gen_hist(r, bc, cf, bs, al, style):
         F(0, r.range(0, live[0]))
         if r.chance(1, 2): M(0, 1)
     ops = [o for o in ops if o]
-    return 'hist %d %d %d %d %d %s %s' % (bc, cf, bs, al, r.below(4), ','.join(map(str, res)), ' '.join(ops))
+    return 'hist %d %d %d %d %d %s %s' % (bc, cf, bs, al, endmode, ','.join(map(str, res)), ' '.join(ops))
 
 
 def hist_cases(ctx, scale, n):
@@ -160,13 +177,14 @@ def hist_cases(ctx, scale, n):
     cs = []
     # aimed parameter sets first, then the sampled sweep block size 1..300 x alignment x blockCount x cache
     aimed = [(bc, cf, bs, al) for bc in BCS for cf in CFS for (bs, al) in ((1, 1), (8, 8), (24, 8), (17, 16), (300, 1024), (3, 2))]
+    aimed += [(bc, r.choice(CFS), r.choice([1, 8, al, 40]), al) for bc in (1, 1, 2, 32) for al in ODD_ALIGNS]   # non-power-of-two alignments
     for (bc, cf, bs, al) in aimed:
-        for style in (0, 2) if bc > 1 else (1,):
+        for style in (0, 2, 3) if bc > 1 else (1,):
             cs.append(gen_hist(r, bc, cf, bs, al, style))
     while len(cs) < n:
-        bc = r.choice(BCS); cf = r.choice(CFS); bs = r.range(1, 300); al = r.choice(ALIGNS)
+        bc = r.choice(BCS); cf = r.choice(CFS); bs = r.range(1, 300); al = r.choice(ALIGNS if r.chance(2, 3) else ODD_ALIGNS)
         if bc == 127 and r.chance(1, 2): bc = r.choice([2, 3, 31, 32])
-        cs.append(gen_hist(r, bc, cf, bs, al, r.below(3) if bc > 1 else 1))
+        cs.append(gen_hist(r, bc, cf, bs, al, r.below(4) if bc > 1 else 1))
     return cs
 
 
@@ -213,6 +231,17 @@ def oracle_lines(ctx, cases, lines):
                 elif any(p < b + B and b < p + l for (p, l) in meta for b in blocks): why = 'pool bookkeeping bytes overlap a block'
                 if why: bad.append((c, out, why))
                 else: ctx.nontrivial.add(c)
+            except ValueError:
+                bad.append((c, out, 'unparsable / failing implementation output: ' + out[:200]))
+        elif w[0] == 'al1':
+            try:
+                B, A, begin = int(w[3]), int(w[4]), int(w[5])
+                off, req, inside, ok = map(int, out.split())
+                why = None
+                if (begin + off) % A: why = 'single-block pool returned a block that is not aligned to blockAlignment %d (manager address %d mod %d = %d)' % (A, begin, A, begin % A)
+                elif not inside or off + B > req: why = 'single-block pool: block outside the memory obtained'
+                elif ok != 1: why = 'single-block pool: Deallocate did not return exactly the manager block'
+                if why: bad.append((c, out, why))
             except ValueError:
                 bad.append((c, out, 'unparsable / failing implementation output: ' + out[:200]))
         elif w[0] == 'nb1':
@@ -319,7 +348,7 @@ def run(ctx):
         ctx.log('a stage broke: searching the implementation for a failing input with the thorough generator')
         hist = hist + hist_cases(ctx, 6, 4000)
         tv = tv + layout_cases(ctx, 4)
-    cases = [c for c in tv if c.startswith('nb')] + fab + hist
+    cases = [c for c in tv if c.startswith('nb') or c.startswith('al1')] + fab + hist
     rc, lines, err = run_harness(ctx, harness, cases, 'oracle')
     ctx.evaluations += len(cases)
     bad = oracle_lines(ctx, cases, lines)
